@@ -11,6 +11,10 @@ def instances():
         out.append(Inst(id="c12.unparse.%s" % name, props=["C12"], harness="h_binop.cpp", entry="vx_unparse", tus=CORE_TUS + ["blocc/operator/op_%s.cpp" % name, "blocc/operator.cpp"],
                         defs=["VX_OP=%s" % cls, 'VX_OPH="blocc/operator/op_%s.h"' % name, "VX_A=K_INTEGER", "VX_B=K_INTEGER", "VX_OPID=Operator::%s" % opid],
                         stubs=SCALAR_STUBS, unwind=3, timeout=300, bounds="operand texts fixed (\"x\", \"yz\")", inputs="parenthesis flag"))
+    for name, cls, opid in (("neg", "OpNEGExpression", "OP_NEG"), ("pos", "OpPOSExpression", "OP_POS"), ("not", "OpNOTExpression", "OP_NOT"), ("bnot", "OpBNOTExpression", "OP_BNOT")):
+        out.append(Inst(id="c12.unparse.%s" % name, props=["C12"], harness="h_binop.cpp", entry="vx_unparse", tus=CORE_TUS + ["blocc/operator/op_%s.cpp" % name, "blocc/operator.cpp"],
+                        defs=["VX_OP=%s" % cls, 'VX_OPH="blocc/operator/op_%s.h"' % name, "VX_A=K_INTEGER", "VX_B=K_INTEGER", "VX_OPID=Operator::%s" % opid, "VX_UNARY=1"],
+                        stubs=SCALAR_STUBS, unwind=3, timeout=300, bounds="operand text fixed (\"x\")", inputs="parenthesis flag"))
     for pat in ("", "P", "E", "PP", "PE", "EP", "EE", "PPP", "PEP", "EEE", "EPE"):
         out.append(Inst(id="c12.literal.%s" % (pat or "empty"), props=["C12", "C10"], harness="h_c12.cpp", entry="c12_literal", tus=["blocc/value.cpp", "blocc/exception_runtime.cpp"],
                         defs=['VX_PAT="%s"' % pat], stubs=FMT_STUBS + CONTAINER_STUBS + ["_ZN4bloc5Value6_clearEv"][:0], unwind=len(pat) * 2 + 4, timeout=600, tier="quick" if len(pat) <= 2 else "thorough",
